@@ -45,6 +45,10 @@ def _mk_source(inp):
     import pandas as pd
     dd = U.dd()
     src = inp["src"]
+    if src["kind"] == "presorted_w":
+        w = src["w"]
+        df = pd.DataFrame({"v": list(range(len(w))), "w": w}, index=pd.Index(src["index"], dtype="int64"))
+        return dd.from_pandas(df, npartitions=src["n"], sort=False), df
     if src["kind"] == "from_pandas":
         idx = src["index"]
         df = pd.DataFrame({"v": list(range(len(idx))), "w": [(7 * k + 3 * i) % 11 for i, k in enumerate(idx)]},
@@ -192,11 +196,12 @@ def case_pipeline(ctx, inp):
         path = "+".join(o[0] for o in inp["ops"]) or inp["src"]["kind"]
         # known finding: a filter after a set_index whose divisions were computed from the data is pushed below the
         # set_index by the optimizer, which then recomputes (different) divisions on the filtered data
-        si = [i for i, o in enumerate(inp["ops"]) if (o[0] == "set_index" and o[1] is None) or o[0] == "reset_set"]
-        pushed = bool(si) and any(o[0] == "filter" for o in inp["ops"][si[0] + 1:])
+        si = [i for i, o in enumerate(inp["ops"]) if o[0] in ("set_index", "reset_set")]
+        si_computed = [i for i in si if inp["ops"][i][0] == "reset_set" or inp["ops"][i][1] is None]
+        pushed = bool(si_computed) and any(o[0] == "filter" for o in inp["ops"][si_computed[0] + 1:])
         fsig = "set_index(computed divisions)+filter:optimizer-recomputes-divisions" if pushed else None
         # known finding: Head/Tail of such a set_index is rewritten to SetIndex(NFirst/NLast(...))
-        if fsig is None and si and any(o[0] in ("head", "tail") for o in inp["ops"][si[0] + 1:]):
+        if fsig is None and si_computed and any(o[0] in ("head", "tail") for o in inp["ops"][si_computed[0] + 1:]):
             fsig = "set_index(computed divisions)+head|tail:optimizer-rewrites-to-NFirst/NLast"
         last = inp["ops"][-1][0] if inp["ops"] else inp["src"]["kind"]
         try:
@@ -328,6 +333,12 @@ def _rand_op(rng, first):
 
 
 def _rand_source(rng):
+    if rng.random() < 0.12:
+        # column `w` already ordered, equal keys straddling partition boundaries: set_index('w') may only skip the
+        # shuffle if no run of equal keys crosses a boundary
+        ln = rng.randint(2, 18)
+        w = sorted(rng.randint(0, rng.choice([3, 6, 10])) for _ in range(ln))
+        return {"kind": "presorted_w", "w": w, "index": [rng.randint(0, 30) for _ in range(ln)], "n": rng.randint(2, 5)}
     if rng.random() < 0.55:
         ln = rng.randint(1, 18)
         idx = [rng.randint(0, rng.choice([4, 10, 30])) for _ in range(ln)]
